@@ -358,6 +358,7 @@ func c18(c *Ctx) {
 	c18TokenExpiry(c)
 	c18AccountOwnership(c)
 	c18RevocationReachesEverySession(c)
+	c18PermissionChangeKeepsOtherDatabases(c)
 	c18PerMessageGate(c)
 	// ---- C18.4 SQL statements: readOnly() agrees with effects ------------------------------------------------------
 	c18SQLReadOnly(c)
@@ -1224,5 +1225,34 @@ func c18RevocationReachesEverySession(c *Ctx) {
 	}
 	if n < 2 {
 		c.undecided(r, "floor", fmt.Sprintf("%d releases of sessions inside loops found (CloseSessionsForUser, expireSessions confirmed by hand)", n))
+	}
+}
+
+// c18PermissionChangeKeepsOtherDatabases: ChangePermission is authorised by the caller's admin right on ONE database
+// (the one named in the request). The SQL privileges of the target user are a list over ALL databases: the new list is
+// derived from the old one (entries of other databases carried over), it is not a fresh list computed from the request
+// alone - otherwise an administrator of db1 rewrites what the user may do on db2.
+func c18PermissionChangeKeepsOtherDatabases(c *Ctx) {
+	r := "C18.12/permission-change-keeps-other-databases"
+	f := c.mustFn(r, "pkg/server.(*ImmuServer).ChangePermission")
+	if f == nil {
+		return
+	}
+	isOld := func(v ssa.Value) bool {
+		u, ok := v.(*ssa.UnOp)
+		if !ok || u.Op != token.MUL {
+			return false
+		}
+		fl, _ := fieldOf(u.X)
+		return fl == "User.SQLPrivileges"
+	}
+	n := 0
+	for i, st := range sites(f, storeTo("User.SQLPrivileges")) {
+		n++
+		c.check(dependsOn(st.(*ssa.Store).Val, isOld), r, fmt.Sprintf("%s:SQLPrivileges#%d", fnName(f), i), c.pos(st.Pos()), "the new list of SQL privileges is derived from the one the user had",
+			"the SQL privileges of the target user are replaced as a whole by a list computed from the request: the privileges held on databases the caller does not administer are dropped")
+	}
+	if n == 0 {
+		c.okTrivial(r, fnName(f)+":SQLPrivileges", c.pos(f.Pos()), "ChangePermission does not rewrite the SQL privileges")
 	}
 }
